@@ -50,7 +50,7 @@ func useRoots(ctx *core.Ctx, r *core.Report) []*ssa.Function {
 }
 
 func C13(ctx *core.Ctx, r *core.Report) {
-	r.Explanation = "Crash classes reachable from the request-facing API (USE entry set) in the VTA call graph: explicit panics not converted to errors (K1), unchecked type assertions not discharged by a dominating guard, the operand's static type or its dynamic type set (K2), constant/len-relative indexing without a length test (K4). Each site is one obligation; sites confirmed to be API-misuse preconditions are in a frozen triage table with a reason. Not decided: nil dereferences outside these classes, arithmetic indexes, stack depth of structural recursion, hangs."
+	r.Explanation = "Crash classes reachable from the request-facing API (USE entry set) in the VTA call graph: explicit panics not converted to errors (K1), unchecked type assertions not discharged by a dominating guard, the operand's static type or its dynamic type set (K2), constant/len-relative indexing without a length test (K4). Each site is one obligation; sites confirmed to be API-misuse preconditions are in a frozen triage table with a reason. Also: parallel indexing (K4b: Y[i] inside `range X` needs a length relation), every cycle of the xpath lexer's loops moves the input position, the path parser compares the number of key values with the number of key leaves before building a key, and val.Equal establishes equal formats before calling Compare. Not decided: nil dereferences outside these classes, arithmetic indexes, stack depth of structural recursion, hangs."
 	roots := useRoots(ctx, r)
 	e := newCrashEngine(ctx, r, roots, func(f *ssa.Function) bool {
 		return c13OutOfScope(f)
